@@ -138,6 +138,11 @@ func runCheck(repo, verif, prop, tier string, timeout, par int, keep bool) int {
 			pats = append(pats, "./x/"+m, "./x/"+m+"/types")
 		}
 	}
+	if prop == "C05" {
+		for _, m := range append(append([]string{}, customModules...), "jklmint") {
+			pats = append(pats, "./x/"+m)
+		}
+	}
 	if len(pats) == 0 {
 		return broken("no contract serves this property")
 	}
@@ -170,6 +175,9 @@ func runCheck(repo, verif, prop, tier string, timeout, par int, keep bool) int {
 	}
 	if prop == "C11" {
 		results = append(results, w.structuralC11())
+	}
+	if prop == "C05" {
+		results = append(results, w.structuralC05())
 	}
 	outDir := filepath.Join(verif, "out", prop+"-"+tier)
 	if os.Getenv("VERIF_EVIDENCE_DIR") != "" {
